@@ -496,6 +496,13 @@ int main(void) {
 			/* like a chain from the tree builder, the local chain carries no aggregation time yet (the builder sets the signature's; it does not release a previous value) */
 			if (rc == KSI_OK) { KSI_Integer *t = NULL; KSI_AggregationHashChain_getAggregationTime(ch, &t); KSI_AggregationHashChain_setAggregationTime(ch, NULL); KSI_Integer_free(t); }
 			if (rc == KSI_OK) rc = KSI_SignatureBuilder_openFromSignature(slots[k], &bld);
+			/* OPREPEND ... <startLevel>: the input level of the local tree's leaves -- the block signer's sequence (start level, append, close with that level).
+			 * (KSI_SignatureBuilder_createSignatureWithAggregationChain does not hand the start level to the builder it works on and fails for levels above 0.) */
+			if (rc == KSI_OK && n > 4 && atoi(tok[4]) > 0) {
+				rc = KSI_SignatureBuilder_setAggregationChainStartLevel(bld, (KSI_uint64_t)atoi(tok[4]));
+				if (rc == KSI_OK) rc = KSI_SignatureBuilder_appendAggregationChain(bld, ch);
+				if (rc == KSI_OK) rc = KSI_SignatureBuilder_close(bld, (KSI_uint64_t)atoi(tok[4]), &out);
+			} else
 			if (rc == KSI_OK) rc = KSI_SignatureBuilder_createSignatureWithAggregationChain(bld, ch, &out);
 			KSI_SignatureBuilder_free(bld); KSI_AggregationHashChain_free(ch); KSI_Signature_free(slots[d]); slots[d] = out;
 			printf("R oprepend rc=0x%x\n", rc);
